@@ -40,7 +40,7 @@ ASSUMPTIONS = ["the look-back template T5 (delay of a constant) runs on the star
                "clause (iii) uses the closed-form template reference with relative tolerance 1e-9",
                "stream-steps comes last in a partition (it runs to the stop time)"]
 FAULT_KINDS = []
-PROBES = ["failed_step_request_retried", "stop_time_off_the_grid", "bystander_scenario_on_another_grid", "two_managers_different_runspecs", "earlier_session_not_ended", "decimal_dt", "fractional_start", "mixed_partition", "per_step_settings", "equation_subset_without_dependencies", "two_scenarios_different_runspecs",
+PROBES = ["session_begun_after_the_scenario_start", "failed_step_request_retried", "stop_time_off_the_grid", "bystander_scenario_on_another_grid", "two_managers_different_runspecs", "earlier_session_not_ended", "decimal_dt", "fractional_start", "mixed_partition", "per_step_settings", "equation_subset_without_dependencies", "two_scenarios_different_runspecs",
           "stream_in_partition", "points_step_setting", "runspecs_in_session_settings", "flat_results_requested", "two_scenarios_in_one_session", "scenario_level_constants"]
 EXHAUSTIVE = {"quick": False, "thorough": False}
 
@@ -140,7 +140,18 @@ def generate(spec):
         # an earlier, plain session on the same object that is stepped to the end, asked for its results and never ended:
         # nothing of it may show in the session under test
         case["prior_session"] = {"flat": rng.random() < 0.5}
-    if rng.random() < 0.25 and not case.get("twin") and template != "T5":
+    if rng.random() < 0.12 and not case.get("twin") and nsteps >= 5:
+        # (python channel) the session is begun LATER than the scenario starts (begin_session(starttime=T0)): it reports the grid
+        # from T0 on, with the values the scenario has there; settings passed with its first step change nothing before T0
+        k0 = rng.randrange(1, nsteps - 2)
+        case["late_start"] = k0
+        ss = {k_: v_ for k_, v_ in case["step_settings"].items() if int(k_) > k0}
+        if rng.random() < 0.7:
+            one = gen_step_settings(rng, template, nsteps)
+            if one:
+                ss[str(k0)] = one[sorted(one)[0]]
+        case["step_settings"] = ss
+    if rng.random() < 0.25 and not case.get("twin") and template != "T5" and not case.get("late_start"):
         # the session itself re-parameterises the scenario's run specs (begin_session settings)
         # (not for T5: the DSL's delay() writes the model's start time into the generated function when the equation is
         #  defined, so a look-back model is only meaningful on the start time it was built with)
@@ -358,11 +369,15 @@ def session_channel(case, res, log, want, ref):
     if case.get("begin_runspecs"):
         res.probe("runspecs_in_session_settings")
         b.begin_session(scenarios=list(scns), scenario_managers=[MGR], equations=list(eqs), settings=begin_settings(case))
+    elif case.get("late_start"):
+        res.probe("session_begun_after_the_scenario_start")
+        b.begin_session(scenarios=list(scns), scenario_managers=[MGR], equations=list(eqs), starttime=grid[case["late_start"]])
     else:
         b.begin_session(scenarios=list(scns), scenario_managers=[MGR], equations=list(eqs), starttime=cfg["start"])
     acc = {}
     acc_twin = {}
-    k = 0
+    k = case.get("late_start") or 0
+    grid = grid[k:]         # (a session begun later covers the grid from there on)
     guard = 0
     while guard < len(grid) + 5:
         guard += 1
